@@ -1,5 +1,77 @@
-"""C06 placeholder"""
+"""C06 - fields are never read past the end of the payload."""
+
+import ast
+
+from ..front import norm, walk_no_nested
+from ..symeval import is_const, show
 from . import decoder as DEC
-META = {"explanation": "under construction", "trusted": []}
+from . import tablerules as TR
+from .util import is_self_call
+
+META = {
+    "explanation": (
+        "Static analysis: D1 for every descriptor the extraction's shift amount is the linear form (payload bits - offset - w) with coefficients (1, -1, -1) and no saturation, "
+        "so a field extending past the end makes the shift count negative, which Python rejects (ValueError); D2 that exception is not swallowed: no handler in the decoding routines, "
+        "the driver's handler catches it and every path of the handler raises a library exception, the constructor does not catch it; D3 the bit length and the integer image are both "
+        "derived from the same stored payload (8*len, int.from_bytes big) and are never reassigned or accessed elsewhere; D4 linear offset threading (an offset reset would re-read earlier "
+        "bits instead of failing); widths are non-negative ints (table typing). Truncations that remove only padding bits are outside the property's quantifier."
+    ),
+    "trusted": ["CPython ast parser", "Python semantics: a negative shift count raises ValueError", "sa/symeval.py, sa/domains.py"],
+}
+
+
 def run(eng, ctx):
-    DEC.field_values(eng, ctx, "C03.D1", "C03.D2", "C03.D3", "C03.D5")
+    m = DEC.field_values(eng, ctx, "C03.D1", "C03.D2", "C03.D3", "C03.D5")
+    if not (m.payload_field and m.int_field and m.blen_field):
+        return
+    # ---------------- D2 exception not swallowed
+    ctx.rule("C06.D2", "the bounds failure is not swallowed: no try/except inside the decoding routines; the driver's handler covers ValueError and always raises a library exception; the constructor does not catch")
+    inner = sorted(set(eng.decoder_cycle) | {eng.single_field_routine, eng.map_builder})
+    nh = 0
+    for q in inner:
+        f = eng.repo.func(q)
+        ctx.touch(func=q)
+        for n in walk_no_nested(f.node):
+            if isinstance(n, ast.Try):
+                se = eng.symeval(q)
+                for h in n.handlers:
+                    nh += 1
+                    effs = [e for e in se.effects if e.handler is h]
+                    reraises = [e for e in effs if e.kind == "raise"]
+                    swallow = not reraises or any(e.guards and len([c for c in e.guards if c[0][0] != "caught"]) > 0 for e in reraises)
+                    covers = h.type is None or any(norm(t).split(".")[-1] in ("Exception", "BaseException", "ValueError", "ArithmeticError") for t in (h.type.elts if isinstance(h.type, ast.Tuple) else [h.type]))
+                    if covers:
+                        ctx.check(not swallow, "C06.D2", q, f"except {norm(h.type) if h.type else ''}", expected="no handler that can absorb the bounds failure inside the decoder", found="handler does not re-raise on every path", **eng.loc(f, h))
+    drv = eng.repo.func(eng.attributes_driver)
+    ctx.touch(func=drv.qualname)
+    se = eng.symeval(drv.qualname)
+    calls = [e for e in se.effects if e.kind == "call" and e.term[2][0] == "attr" and e.term[2][1] == ("self",) and f"{eng.message_cls}.{e.term[2][2]}" in eng.decoder_cycle]
+    for e in calls:
+        ctx.check(bool(e.trys), "C06.D2", drv.qualname, norm(e.node)[:70], expected="decoder call inside the driver's try", found="unprotected" if not e.trys else "ok", **eng.loc(drv, e.node))
+    trys = [n for n in walk_no_nested(drv.node) if isinstance(n, ast.Try)]
+    for t in trys:
+        covered = False
+        for h in t.handlers:
+            nh += 1
+            names = {"*"} if h.type is None else {norm(x).split(".")[-1] for x in (h.type.elts if isinstance(h.type, ast.Tuple) else [h.type])}
+            if names & {"*", "Exception", "BaseException", "ValueError"}:
+                covered = True
+            effs = [e for e in se.effects if e.handler is h]
+            raises = [e for e in effs if e.kind == "raise"]
+            uncond = [e for e in raises if all(c[0][0] == "caught" for c in e.guards)]
+            lib = all(e.term[0] == "call" and e.term[2][0] == "class" and e.term[2][1].startswith("exceptions.") or e.term == ("reraise",) for e in raises)
+            others = [e for e in effs if e.kind in ("return",)]
+            ctx.check(bool(uncond) and lib and not others, "C06.D2", drv.qualname, f"except {norm(h.type) if h.type else ''}", expected="every path of the handler raises a library exception",
+                      found=f"{len(raises)} raise(s), {len(uncond)} unconditional, {len(others)} return(s)", **eng.loc(drv, h))
+        ctx.check(covered, "C06.D2", drv.qualname, "handler covers ValueError", expected="except Exception / ValueError", found=", ".join(norm(h.type) if h.type else "bare" for h in t.handlers), **eng.loc(drv, t))
+    ctx.check(len(trys) >= 1, "C06.D2", drv.qualname, "driver try", expected="the decoding loop is wrapped in try/except", found=str(len(trys)), **eng.loc(drv, drv.node))
+    init = eng.repo.func(f"{eng.message_cls}.__init__")
+    si = eng.symeval(init.qualname)
+    for e in si.effects:
+        if e.kind == "call" and is_self_call(e.term, drv.name):
+            ctx.check(not e.trys, "C06.D2", init.qualname, norm(e.node), expected="the constructor lets the decoder's error propagate", found=f"inside try {e.trys}" if e.trys else "ok", **eng.loc(init, e.node))
+    ctx.instance("handlers examined", nh, 1)
+    # ---------------- D3, D4
+    DEC.payload_uses(eng, ctx, "C03.D10", m)
+    DEC.threading(eng, ctx, "C03.D5b", m)
+    TR.fields_defined(eng, ctx, "C10.D2")
